@@ -96,6 +96,7 @@ func init() {
 func runC14(w *vx.W) {
 	c14FirstUse(w)
 	c14Alignment(w)
+	procsFamily(w, "C14", "checksum")
 	c14SelfReferential(w)
 	// inverse table: state -> 2-byte prefix, from the reference model
 	var prefix [65536][2]byte
@@ -386,6 +387,9 @@ func c14Pattern(n int) []byte {
 
 // c14Sub: args = api len [api len ...]; prints one hex sum per call.
 func c14Sub(args []string) {
+	if tzSub(args) {
+		return
+	}
 	for i := 0; i+1 < len(args); i += 2 {
 		n, _ := strconv.Atoi(args[i+1])
 		data := c14Pattern(n)
